@@ -127,13 +127,26 @@ Definition handle_update (st : nstate) (u : upd) (recv : node) : nstate * list a
 Definition expire (st : nstate) (id : N) : nstate :=
   set_state st (ns_info st) (ns_known st) (filter (fun x => negb (x =? id)) (ns_seen st)) (ns_down st).
 
+(* removeConnection: the session to neighbour c has ended.  The connection goes, and with it the two cost
+   entries that describe the link (the node's own row and c's row); what the node has LEARNED - the stored
+   (epoch, sequence) pairs, the other rows, the seen IDs - stays. *)
+Definition drop_entry (row k : node) (m : amap (amap N)) : amap (amap N) :=
+  match aget row m with Some r => aset row (adel k r) m | None => m end.
+Definition conn_lost (st : nstate) (c : node) : nstate :=
+  {| ns_self := ns_self st; ns_epoch := ns_epoch st;
+     ns_conns := filter (fun x => negb (x =? c)) (ns_conns st);
+     ns_info := ns_info st;
+     ns_known := drop_entry (ns_self st) c (drop_entry c (ns_self st) (ns_known st));
+     ns_seen := ns_seen st; ns_down := ns_down st |}.
+
 (* histories *)
-Inductive event := Recv (u : upd) (recv : node) | Expire (id : N).
+Inductive event := Recv (u : upd) (recv : node) | Expire (id : N) | Lost (c : node).
 
 Definition step (st : nstate) (e : event) : nstate * list action :=
   match e with
   | Recv u r => handle_update st u r
   | Expire id => (expire st id, [])
+  | Lost c => (conn_lost st c, [])
   end.
 
 Fixpoint run (st : nstate) (h : list event) : nstate * list (list action) :=
